@@ -1274,7 +1274,16 @@ func c11MinMain(args []string) {
 	tmp := *out + ".cand.json"
 	tmpRes := *out + ".cand.res.json"
 	tries := 0
-	attempt := func(run *C11Run) (*runResult, bool) {
+	// A race verdict depends on ThreadSanitizer's shadow memory, which keeps a
+	// few accesses per word and evicts pseudo-randomly: with many tasks touching
+	// one word a real race can go unreported in one process. A candidate is
+	// therefore accepted only if it reproduces in `need` consecutive fresh
+	// processes, so that the published replay is a robust one.
+	need := 1
+	if strings.HasPrefix(class, "race:") {
+		need = 2
+	}
+	attemptOnce := func(run *C11Run) (*runResult, bool) {
 		tries++
 		writeJSON(tmp, c11Replay{Format: rp.Format, Property: "C11", Class: class, Run: run})
 		cmd := exec.Command(os.Args[0], "c11-replay", "--quiet", "--out", tmpRes, "--racelog", *racelog, tmp)
@@ -1293,8 +1302,22 @@ func c11MinMain(args []string) {
 		}
 		return &res, false
 	}
+	attempt := func(run *C11Run) (*runResult, bool) {
+		var res *runResult
+		for i := 0; i < need; i++ {
+			r, ok := attemptOnce(run)
+			if !ok {
+				return r, false
+			}
+			res = r
+		}
+		return res, true
+	}
 	cur := cloneRun(rp.Run)
 	res, ok := attempt(cur)
+	for i := 0; !ok && i < 4; i++ {
+		res, ok = attempt(cur)
+	}
 	if !ok {
 		fatal(3, "c11-min: the unminimised replay did not reproduce class %s", class)
 	}
